@@ -678,7 +678,49 @@ fn run_scenario(line: &str, out: &mut impl Write) {
             }
         }
     });
-    let _ = panic::catch_unwind(AssertUnwindSafe(|| root.dispose()));
+    // the end of every scenario: the root is disposed through its RootHandle, from outside, and what happens meanwhile is observed
+    lines.push("rootdispose".to_string());
+    LAST_PANIC.with(|p| *p.borrow_mut() = None);
+    let r = panic::catch_unwind(AssertUnwindSafe(|| root.dispose()));
+    lines.extend(LOG.with(|l| std::mem::take(&mut *l.borrow_mut())));
+    match r {
+        Ok(()) => {
+            // the root has been re-initialised and can be used again: whatever is created in it now, the handles of the destroyed
+            // nodes (the last instance registered under each name) must keep reporting "not alive"
+            let stale = panic::catch_unwind(AssertUnwindSafe(|| {
+                root.run_in(|| {
+                    let n = REGISTRY.with(|r| r.borrow().len()) + 4;
+                    for i in 0..n {
+                        let s = create_signal(i as i64);
+                        let _ = create_memo(move || s.get() + 1);
+                    }
+                    REGISTRY.with(|r| {
+                        r.borrow()
+                            .values()
+                            .filter(|b| match b {
+                                Bind::Sig(s) => s.is_alive(),
+                                Bind::Read(s) => s.is_alive(),
+                                Bind::Handle(h) => verif::handle_is_alive(*h),
+                                Bind::Cell(_) => false,
+                            })
+                            .count()
+                    })
+                })
+            }));
+            let _ = panic::catch_unwind(AssertUnwindSafe(|| root.dispose()));
+            match stale {
+                Ok(n) => lines.push(format!("rootdisposed ok stale_alive={n}")),
+                Err(_) => lines.push("rootdisposed ok stale_alive=panic".to_string()),
+            }
+        }
+        Err(_) => {
+            let (msg, file) = LAST_PANIC.with(|p| p.borrow_mut().take()).unwrap_or_default();
+            if std::env::var("VERIF_DEBUG").is_ok() {
+                eprintln!("panic at root disposal: {msg} @ {file}");
+            }
+            lines.push(format!("rootdisposed panic {}", classify(&msg, &file)));
+        }
+    }
     for l in lines {
         writeln!(out, "{l}").unwrap();
     }
